@@ -225,12 +225,14 @@ def run_case(res: Result, spec, idx):
             if st.status == "done":
                 S["done_at"] = st.i
                 res.count("top-level-completions")
-                if not top_final:
+                if not S.get("final_active_at_done", bool(top_final)):
                     bad("C10:status-done-without-top-level-final",
-                        "status is done but no final child of the root is active")
+                        "status was set to done while no final child of the root was active")
+                if not top_final:
+                    res.count("done-then-left-final-by-another-nominee-of-the-same-event")
                 exp = case.plan.get("output") if "output" in case.plan else (
                     top_final[0].output if top_final else None)
-                if st.output != exp:
+                if st.output != exp and (top_final or "output" in case.plan):
                     bad("C10:wrong-machine-output/%s" % ("machine-level" if "output" in case.plan
                                                          else "final-state"),
                         "output is %r, expected %r" % (st.output, exp))
@@ -249,8 +251,14 @@ def run_case(res: Result, spec, idx):
         status_log = []
         sw = observe.install_status_watch()
 
+        root_finals = {n.id for n in tree.root.children if n.kind == "final"}
+
         def sink(obj, old, new):
             status_log.append((id(obj), old, new))
+            if new == "done" and old == "running":
+                # judged at the moment of the write: the same event may have nominated further
+                # transitions (C02) that run afterwards and leave the final state again
+                S["final_active_at_done"] = bool(root_finals & set(observe.config_of(obj)))
         sw.sink = sink
         with LogCapture(logging.ERROR) as cap:
             f = drive.run_sync if engine == "sync" else drive.run_async
@@ -265,7 +273,7 @@ def run_case(res: Result, spec, idx):
             # stop() after done releases timers
             if engine == "sync":
                 t0 = time.time()
-                while observe.engine_threads() and time.time() - t0 < 1.0:
+                while observe.engine_threads() and time.time() - t0 < 8.0:
                     time.sleep(0.005)
                 if observe.engine_threads():
                     bad("C10:stop-after-done-left-threads",
